@@ -349,6 +349,16 @@ pub fn run_seq(trace: &Trace, skip: &BTreeSet<usize>, opts: &SeqOpts) -> SeqOutc
                         i,
                         op.key(),
                     );
+                    if msg.contains("assertion `left == right` failed") {
+                        // the library's own check that the published counters did not
+                        // change while a maintenance run worked on its private copy
+                        rep.viol(
+                            "C10.counters-changed-under-maintenance",
+                            format!("{}: {}", op.name(), msg.replace('\n', " ")),
+                            i,
+                            op.key(),
+                        );
+                    }
                     dead_run = true;
                 }
                 StepResult::Panicked
@@ -599,7 +609,8 @@ pub fn run_seq(trace: &Trace, skip: &BTreeSet<usize>, opts: &SeqOpts) -> SeqOutc
                         None,
                     );
                 }
-                if housekeeping {
+                // (bounded to universes smaller than one purge batch: 100 entries on unsync)
+                if housekeeping && last_snap.entries.len() < 90 {
                     for e in &snap.entries {
                         let kk = e.key as u16;
                         if dead_before.get(&kk) == Some(&(e.value as u32)) {
@@ -658,7 +669,11 @@ pub fn run_seq(trace: &Trace, skip: &BTreeSet<usize>, opts: &SeqOpts) -> SeqOutc
                 }
             }
 
-            // C12/C13 exact policy model
+            // C12/C13 exact policy model (bounded to universes smaller than one batch)
+            if pol.enabled && (last_snap.entries.len() >= 90 || snap.entries.len() >= 90) {
+                pol.desync();
+                pol.enabled = false;
+            }
             if pol.enabled {
                 let estf = |k: u16| est_pre.get(&k).copied().unwrap_or(0);
                 if unsync {
